@@ -79,8 +79,8 @@ var wrongRules = map[string]selector{
 
 type bracket struct {
 	lower, upper, cells int64
-	nonMonotone       int64
-	multi             int64
+	nonMonotone         int64
+	multi               int64
 }
 
 func (b bracket) width() float64 { return float64(b.upper-b.lower) / float64(b.cells) }
@@ -167,7 +167,7 @@ func vecText(vec []uint32) string {
 
 type propStats struct {
 	evals, cells, vectors, crossEvals int64
-	maxWidth                         [4]float64 // by n
+	maxWidth                          [4]float64 // by n
 }
 
 // propUnit checks one (weight vector, candidate) on the real selection.
@@ -190,7 +190,9 @@ func propUnit(r *vlib.Run, vec []uint32, i, logN int, st *propStats) {
 				vecText(vec), i, vec[i], vec[i], sum, exp, b.lower, b.upper, b.cells, 1<<logN, lo, up, v),
 			map[string]interface{}{"part": "prop", "weights": vec, "candidate": i, "logN": logN})
 	}
-	r.Sample(map[string]interface{}{"part": "prop", "weights": vecText(vec), "candidate": i, "expected": exp, "lower": lo, "upper": up, "cells": b.cells})
+	if st.vectors == 0 {
+		r.Sample(map[string]interface{}{"part": "prop", "weights": vecText(vec), "candidate": i, "expected": exp, "lower": lo, "upper": up, "cells": b.cells})
+	}
 }
 
 // propTeeth runs the same bracket test on harness-side wrong selection rules.
